@@ -5,6 +5,7 @@
 From Coq Require Import ZArith Bool String List Reals.
 From Flocq Require Import Core BinarySingleNaN.
 Require Import NixV.Base.Prelude NixV.Base.F64 NixV.Base.F64Facts NixV.Gen.GenDimensions.
+Require NixV.Access.Retrieval NixV.Access.VecUnits.
 Require Import NixV.Axis.AxisSpec NixV.Axis.AxisSpecProofs NixV.Axis.SampledHand NixV.Axis.SearchProofs
                NixV.Axis.SampledProofs NixV.Axis.IntAxisProofs NixV.Axis.RangeModel NixV.Axis.RangeProofs
                NixV.Axis.RoundTrip NixV.Axis.Totality.
@@ -121,3 +122,34 @@ Example C07_nonvacuous :
   getSetIndex (ofME 3 (-1)) [] PositionMatch_Greater = Ok (Some 2) /\
   getIndex (ofZ 2) [ofZ 1; ofZ 2; ofZ 5] PositionMatch_Less = Ok (Some 0).
 Proof. vm_compute. repeat split. Qed.
+
+(** * the overloads that take a vector of units (util::positionToIndex): the vector overload is the pair
+    conversion applied entry by entry, every entry scaled by the factor of its own unit (all factors first:
+    the first unit that cannot be scaled raises), and anything but three lists of one length is refused *)
+Theorem C07_vector_with_units_is_pairwise : forall starts ends units m d du,
+  (d = Retrieval.DSampled (match d with Retrieval.DSampled dt _ _ => dt | _ => Retrieval.fzero end)
+                          (match d with Retrieval.DSampled _ o _ => o | _ => None end) du \/
+   d = Retrieval.DRange (match d with Retrieval.DRange t _ => t | _ => [] end) du) ->
+  List.length ends = List.length starts -> List.length units = List.length starts ->
+  Retrieval.positionToIndex_vec starts ends units m d = VecUnits.vec_spec d du m starts ends units.
+Proof. exact VecUnits.vec_overload_is_pairwise. Qed.
+Print Assumptions C07_vector_with_units_is_pairwise.
+
+Theorem C07_vector_with_units_sizes : forall starts ends units m d,
+  (exists dt off du, d = Retrieval.DSampled dt off du) \/ (exists t du, d = Retrieval.DRange t du) ->
+  List.length ends <> List.length starts \/ List.length units <> List.length starts ->
+  Retrieval.positionToIndex_vec starts ends units m d = Err Retrieval.E_Runtime.
+Proof. exact VecUnits.vec_overload_sizes. Qed.
+Print Assumptions C07_vector_with_units_sizes.
+
+(** the behaviour before the repair (a factor carried over to later entries without unit) breaks the statement *)
+Theorem C07_vector_carry_refuted :
+  VecUnits.positionToIndex_vec_carry VecUnits.ex_starts VecUnits.ex_ends VecUnits.ex_units RangeMatch_Inclusive VecUnits.ex_axis
+  <> VecUnits.vec_spec VecUnits.ex_axis (Some "s"%string) RangeMatch_Inclusive VecUnits.ex_starts VecUnits.ex_ends VecUnits.ex_units.
+Proof. exact VecUnits.vec_overload_carry_refuted. Qed.
+Print Assumptions C07_vector_carry_refuted.
+
+Example C07_vector_with_units_nonvacuous :
+  Retrieval.positionToIndex_vec VecUnits.ex_starts VecUnits.ex_ends VecUnits.ex_units RangeMatch_Inclusive VecUnits.ex_axis
+  = Ok [Some (2, 5); Some (2, 5)].
+Proof. exact VecUnits.vec_overload_example. Qed.
